@@ -33,6 +33,7 @@ type trUnit struct {
 	structs map[string][]string // struct name -> fields to include (nil = all)
 	enums   []string            // named integer types whose constants are emitted
 	funcs   []string            // "recv.name" or "name"
+	vars    []string            // package-level variables with a constant initialiser, emitted as definitions
 	opaque  map[string]string   // method name -> field of Ext it stands for (a method the subset cannot express), applied to the method's name
 }
 
@@ -58,6 +59,10 @@ var trUnits = []trUnit{
 		enums:   []string{"ServerOrder"},
 		opaque:  map[string]string{"serverListFromModule": "strList"},
 		funcs:   []string{"Discovery.filterList", "Discovery.dedupList", "Discovery.shuffleList", "Discovery.ServerList"}},
+	{ns: "User", pkgDir: "internal/user/server",
+		structs: map[string][]string{"User": {"Name", "permissions"}},
+		vars:    []string{"permissionTypes"},
+		funcs:   []string{"splitPermission", "User.iteratePaths"}},
 }
 
 type trErr struct{ msg string }
@@ -327,6 +332,7 @@ type trFn struct {
 	counter int
 	loop    *trLoop
 	vtypes  map[string]string // Go variable -> struct type name (receiver and parameters)
+	regexVars map[string]bool // local variables assigned from regexp.Compile
 }
 
 type trLoop struct {
@@ -804,6 +810,14 @@ func (f *trFn) callStmt(ind string, lhs []ast.Expr, define bool, call *ast.CallE
 		return f.bindTuple(ind, targets, define, strings.TrimSpace(rhs), k)
 	}
 	// external call with several results
+	if src(call.Fun) == "regexp.Compile" && len(lhs) >= 1 {
+		if id, ok := lhs[0].(*ast.Ident); ok {
+			if f.regexVars == nil {
+				f.regexVars = map[string]bool{}
+			}
+			f.regexVars[id.Name] = true
+		}
+	}
 	e := f.expr(call)
 	if len(lhs) == 0 {
 		trFail(call, "call %s used as a statement is neither logging nor a translated method", src(call.Fun))
@@ -1235,6 +1249,9 @@ func (f *trFn) expr(e ast.Expr) string {
 					return "(ext." + term + " " + leanBytesLit(sel.Sel.Name) + ")"
 				}
 			}
+			if id, isId := sel.X.(*ast.Ident); isId && sel.Sel.Name == "MatchString" && len(v.Args) == 1 && f.regexVars[id.Name] {
+				return "(ext.reMatchRaw " + f.expr(sel.X) + " " + f.expr(v.Args[0]) + ")"
+			}
 			if sel.Sel.Name == "MatchString" && len(v.Args) == 1 && f.isRegexpPtr(sel.X) {
 				return "(ext.reMatchRaw " + f.expr(sel.X) + " " + f.expr(v.Args[0]) + ")"
 			}
@@ -1327,6 +1344,7 @@ func (f *trFn) expr(e ast.Expr) string {
 		case "strconv.Atoi":
 			return "(ext.atoi " + f.expr(v.Args[0]) + ")"
 		case "fmt.Errorf", "errors.New":
+			// an error is its presence and its (format) text; the formatted arguments are not modelled
 			c := eval(v.Args[0], nil)
 			if c == nil {
 				trFail(v, "error text is not a constant")
@@ -1473,6 +1491,31 @@ func (p *trPkg) emitFunc(sb *strings.Builder, key string) {
 	sb.WriteString(pre + body + "\n")
 }
 
+// emitVar: a package-level `var name = <composite literal of constants>` as a Lean definition
+func (p *trPkg) emitVar(sb *strings.Builder, name string) {
+	for _, f := range p.files {
+		for _, d := range f.Decls {
+			gd, ok := d.(*ast.GenDecl)
+			if !ok || gd.Tok != token.VAR {
+				continue
+			}
+			for _, sp := range gd.Specs {
+				vs := sp.(*ast.ValueSpec)
+				for i, n := range vs.Names {
+					if n.Name != name || i >= len(vs.Values) {
+						continue
+					}
+					fn := &trFn{p: p, sig: &trSig{}, vtypes: map[string]string{}}
+					fn.push()
+					fmt.Fprintf(sb, "/-- %s var %s (translated) -/\ndef %s := %s\n\n", p.unit.pkgDir, name, leanIdent(name), fn.expr(vs.Values[i]))
+					return
+				}
+			}
+		}
+	}
+	trFail(nil, "package-level variable %s not found in %s", name, p.unit.pkgDir)
+}
+
 func translateAll() string {
 	var sb strings.Builder
 	sb.WriteString("-- GENERATED by /verif/extract (translate.go) from the /repo working tree — do not edit; regenerated on every run.\n")
@@ -1566,6 +1609,9 @@ func translateUnit(u trUnit) (out string) {
 			if !progress {
 				trFail(nil, "cyclic struct dependencies in %s", u.pkgDir)
 			}
+		}
+		for _, v := range u.vars {
+			p.emitVar(&sb, v)
 		}
 		for _, key := range u.funcs {
 			p.emitFunc(&sb, key)
